@@ -160,6 +160,17 @@ func (c *FnCtx) run() {
 	for _, b := range order {
 		c.execBlock(b)
 	}
+	if c.wantsKind("conv") {
+		n := 0
+		for _, o := range c.obls {
+			if o.Kind == "conv" {
+				n++
+			}
+		}
+		if n == 0 {
+			c.obligeAlways(st, "conv", "none", fn.Pos(), "true", "the body contains no integer conversion that can change a value", nil)
+		}
+	}
 	// every anchored clause must have found its source line: a contract that no
 	// longer maps onto the code cannot be checked (reported, never skipped)
 	for _, g := range c.ghostAt {
@@ -1270,6 +1281,14 @@ func (c *FnCtx) execConvert(st *State, in *ssa.Convert) Val {
 	x := c.val(st, in.X)
 	switch {
 	case isInteger(from) && isInteger(to):
+		if c.wantsKind("conv") {
+			// opt-in: an integer conversion keeps the value (no silent truncation or sign change)
+			lo, hi := intRange(to)
+			v := x.(VInt).T
+			if flo, fhi := intRange(from); !(flo == lo && fhi == hi) && c.convertInt(from, to, v) != v {
+				c.oblige(st, "conv", c.anchor(in), in.Pos(), and(le(lo, v), le(v, hi)), fmt.Sprintf("conversion %s -> %s keeps the value", from, to), nil)
+			}
+		}
 		return VInt{c.define(in.Name(), sInt, c.convertInt(from, to, x.(VInt).T))}
 	case isInteger(from) && isFloat(to):
 		return VReal{app("to_real", x.(VInt).T)}
@@ -1301,6 +1320,16 @@ func (c *FnCtx) execConvert(st *State, in *ssa.Convert) Val {
 		return x
 	}
 	panic(unsupported("conversion %s -> %s", from, to))
+}
+
+// wantsKind: opt-in obligation kinds are generated only when the contract lists them ("partial ... conv").
+func (c *FnCtx) wantsKind(k string) bool {
+	for _, p := range c.fc.Partial {
+		if p == k {
+			return true
+		}
+	}
+	return false
 }
 
 func isFloat(t types.Type) bool {
